@@ -147,6 +147,11 @@ def run_workers(binp, prop, tier, seed, budget_s, min_s, tmpd):
                     die("harness error in worker %d: %s" % (w, o["harness_error"][:4000]))
                 if o.get("violation"):
                     stop = True
+                    for q in slots:  # the first confirmed report wins; the others are still searching or minimising
+                        if q:
+                            q["proc"].kill()
+                            q["proc"].wait()
+                    slots = [None] * NW
             if slots[w] is None and not stop and time.time() < deadline:
                 rem = deadline - time.time()
                 if rem < 1.0:
